@@ -4,6 +4,7 @@ import GateryModel.C17.LemmasArith
 import GateryModel.C17.LemmasCrc
 import GateryModel.C17.LemmasExtra
 import GateryModel.C17.LemmasTreeReg
+import GateryModel.C17.Historic
 /-!
 # C17 — library arithmetic and coding primitives equal their mathematical definitions
 
@@ -12,9 +13,10 @@ scl/utils/BitCount.h, utils/OneHot.cpp, utils/Thermometric.cpp, cdc.cpp, math.h/
 All widths, operand values, list lengths, branching parameters, counter limits, operation histories and CRC
 polynomials are universally quantified.  The models are tied to the real circuits by `harness/c17.cpp | gv_c17`.
 
-Three places where the code does NOT meet its definition are stated as they are (`…_partial` + witness theorems):
-signed `min`/`max` (the frontend's `SInt` comparison overflows), `counterUpDown` with both inputs at a limit,
-`biggestPowerOfTwo` for widths ≥ 32 (the generator throws).
+Four defects that an earlier version of this check found in gatery (signed `min`/`max`, `counterUpDown` with both inputs at
+a limit, `biggestPowerOfTwo` for widths ≥ 32, the registered priority tree with a short last chunk) are fixed in /repo
+(ff2206d, 5569e92, 7605865, b9353d8); the theorems below are full strength for the code as it is now.  The `historic_…`
+theorems are witnesses about the pre-fix generators kept in `GateryModel/C17/Historic.lean`, for the record only.
 -/
 namespace Gatery.C17.Props
 open Gatery.C17 Gatery.C17.Spec
@@ -129,25 +131,24 @@ example : peTree 2 18 (ofNat 17 0x10400) = some ⟨5, some 10, true⟩ := by dec
 example : (priorityEncoder (ofNat 17 0x10400)).v = some 10 := by decide
 example : peTree 1 6 (ofNat 5 0) = some ⟨3, none, false⟩ := by decide
 
-/- Pipelined variant `priorityEncoderTree(in, registerStep = true, bps)`.  Full statement (fails, see the witness):
-   `∀ n bps, ∃ L, ∀ input streams, ∀ t, out(t + L) = priorityEncoder(in(t))`.
-   Proved: it holds with `L` = number of register levels whenever the chunking is balanced, i.e. the longest and the shortest
-   path through the tree carry the same number of registers (e.g. every `n` that is a power of `2^bps`). -/
-theorem priorityEncoderTree_registered_partial (bps : Nat) (hb : 1 ≤ bps) (n L : Nat) (hist : Nat → List Bool) (t : Nat)
-    (hlen : ∀ s, (hist s).length = n)
-    (hmax : peTreeDepth bps true (n + 1) n = L) (hmin : peTreeDepth bps false (n + 1) n = L) :
-    ∃ w, peTreeReg bps (n + 1) hist (t + L) = some ⟨w, (priorityEncoder (hist t)).v, (priorityEncoder (hist t)).valid⟩ := by
-  rw [peTreeReg_balanced bps hb (n + 1) n L hist (t + L) hlen (by omega) hmax hmin (by omega), Nat.add_sub_cancel]
-  exact peTree_eq_flat bps hb (n + 1) (hist t) (by rw [hlen]; omega)
+/-- Pipelined variant `priorityEncoderTree(in, registerStep = true, bps)`: for every input width `n`, every `bps ≥ 1` and every
+input stream, the output in cycle `t + L` is the flat priority encoding of the input of cycle `t`, where `L` is the number of
+register levels.  (Every chunk is zero-extended to the common chunk size, so all paths have the same latency.) -/
+theorem priorityEncoderTree_registered (bps : Nat) (hb : 1 ≤ bps) (n : Nat) (hist : Nat → List Bool) (t : Nat)
+    (hlen : ∀ s, (hist s).length = n) :
+    ∃ w, peTreeReg bps (n + 1) hist (t + peTreeRegDepth bps (n + 1) n)
+      = some ⟨w, (priorityEncoder (hist t)).v, (priorityEncoder (hist t)).valid⟩ := by
+  obtain ⟨w, hw⟩ := peTreeReg_eq_flat bps hb (n + 1) n hist (t + peTreeRegDepth bps (n + 1) n) hlen (by omega) (by omega)
+  rw [Nat.add_sub_cancel] at hw
+  exact ⟨w, hw⟩
 
-example : peTreeDepth 2 true 17 16 = 1 ∧ peTreeDepth 2 false 17 16 = 1 := by decide
-example : peTreeDepth 1 true 33 32 = 4 ∧ peTreeDepth 1 false 33 32 = 4 := by decide
+example : peTreeRegDepth 2 18 17 = 2 ∧ peTreeRegDepth 1 33 32 = 4 ∧ peTreeRegDepth 3 10 9 = 1 := by decide
+example : peTreeReg 2 18 (fun s => if s = 1 then ofNat 17 0x10000 else ofNat 17 0) 3 = some ⟨5, some 16, true⟩ := by decide
 
-/-- witness: 17 input bits, `bps = 2` (the default): chunks of 8, 8 and 1 bits sit behind 2, 2 and 1 registers.  A word with only
-bit 16 set in cycle 1, zeros otherwise: two cycles later the output is "invalid" — the word is lost. -/
-theorem priorityEncoderTree_registered_witness :
-    peTreeDepth 2 true 18 17 = 2 ∧ peTreeDepth 2 false 18 17 = 1 ∧
-    peTreeReg 2 18 (fun s => if s = 1 then ofNat 17 0x10000 else ofNat 17 0) 3 = some ⟨5, none, false⟩ ∧
+/-- historical witness (code before b9353d8, `Historic.peTreeReg`): 17 input bits, `bps = 2`: chunks of 8, 8 and 1 bits sat behind
+2, 2 and 1 registers.  A word with only bit 16 set in cycle 1, zeros otherwise: two cycles later the output was "invalid". -/
+theorem historic_priorityEncoderTree_registered_witness :
+    Historic.peTreeReg 2 18 (fun s => if s = 1 then ofNat 17 0x10000 else ofNat 17 0) 3 = some ⟨5, none, false⟩ ∧
     (priorityEncoder (ofNat 17 0x10000)).v = some 16 := by decide
 
 /-! ## count leading zeros -/
@@ -245,40 +246,40 @@ example : grayDecode 5 (grayEncode 19) = some 19 := by decide
 theorem min_unsigned (a b : Nat) : minU a b = min a b := minU_eq a b
 theorem max_unsigned (a b : Nat) : maxU a b = max a b := maxU_eq a b
 
-/- Full statement (fails, see `min_signed_witness`):
-   `∀ w a b, a < 2^w → b < 2^w → toInt w (minS w a b) = min (toInt w a) (toInt w b)`.
-   Proved: it holds whenever the difference of the operands fits into `w` bits (the frontend's `SInt` comparison is
-   `(b - a).sign()`, SignalCompareOp.cpp:40-45). -/
-theorem min_signed_partial (w a b : Nat) (hw : 0 < w) (ha : a < 2 ^ w) (hb : b < 2 ^ w)
-    (hfit : -(2 ^ (w - 1) : Nat) ≤ toInt w b - toInt w a ∧ toInt w b - toInt w a < (2 ^ (w - 1) : Nat)) :
+/-- `scl::min` on `SInt`, every width `w ≥ 1`, all operands: the two's complement minimum. -/
+theorem min_signed (w a b : Nat) (hw : 0 < w) (ha : a < 2 ^ w) (hb : b < 2 ^ w) :
     toInt w (minS w a b) = min (toInt w a) (toInt w b) := by
   unfold minS
-  rw [subSign_eq w b a hw hb ha hfit]
+  rw [ltS_eq w b a hw hb ha]
   by_cases h : toInt w b < toInt w a
   · simp only [h, decide_true, if_true]; omega
   · simp only [h, decide_false, Bool.false_eq_true, if_false]; omega
 
-theorem max_signed_partial (w a b : Nat) (hw : 0 < w) (ha : a < 2 ^ w) (hb : b < 2 ^ w)
-    (hfit : -(2 ^ (w - 1) : Nat) ≤ toInt w a - toInt w b ∧ toInt w a - toInt w b < (2 ^ (w - 1) : Nat)) :
+/-- `scl::max` on `SInt` -/
+theorem max_signed (w a b : Nat) (hw : 0 < w) (ha : a < 2 ^ w) (hb : b < 2 ^ w) :
     toInt w (maxS w a b) = max (toInt w a) (toInt w b) := by
   unfold maxS
-  rw [subSign_eq w a b hw ha hb hfit]
+  rw [ltS_eq w a b hw ha hb]
   by_cases h : toInt w a < toInt w b
   · simp only [h, decide_true, if_true]; omega
   · simp only [h, decide_false, Bool.false_eq_true, if_false]; omega
 
-/-- witness: 4-bit `min(-8, 0)` is computed as `0`, `max(-8, 1)` as `-8` -/
-theorem min_signed_witness : toInt 4 (minS 4 8 0) = 0 ∧ min (toInt 4 8) (toInt 4 0) = -8 := by decide
-theorem max_signed_witness : toInt 4 (maxS 4 8 1) = -8 ∧ max (toInt 4 8) (toInt 4 1) = 1 := by decide
+/-- the frontend comparison itself: `lt` on `SInt` is `<` on the integers -/
+theorem signed_lt (w x y : Nat) (hw : 0 < w) (hx : x < 2 ^ w) (hy : y < 2 ^ w) : ltS w x y = decide (toInt w x < toInt w y) :=
+  ltS_eq w x y hw hx hy
 
-example : toInt 4 (minS 4 13 2) = -3 := by decide
+example : toInt 4 (minS 4 8 0) = -8 ∧ toInt 4 (maxS 4 8 1) = 1 ∧ toInt 4 (minS 4 13 2) = -3 := by decide
+
+/-- historical witness (code before ff2206d, comparison by a `w`-bit subtraction): 4-bit `min(-8, 0)` was `0`, `max(-8, 1)` was `-8` -/
+theorem historic_min_max_signed_witness :
+    toInt 4 (Historic.minS 4 8 0) = 0 ∧ toInt 4 (Historic.maxS 4 8 1) = -8 := by decide
 
 /-! ## biggest power of two -/
 
-/-- For every width below 32 and every value: `0 ↦ 0`, otherwise the largest power of two `≤ v`. -/
-theorem biggestPowerOfTwo_spec (w v : Nat) (hw : w < 32) (hv : v < 2 ^ w) :
-    biggestPowerOfTwo w v = some (if v = 0 then 0 else 2 ^ Nat.log2 v) :=
-  biggestPowerOfTwo_eq w v hw hv
+/-- For every width and every value: `0 ↦ 0`, otherwise the largest power of two `≤ v`. -/
+theorem biggestPowerOfTwo_spec (w v : Nat) (hv : v < 2 ^ w) :
+    biggestPowerOfTwo w v = if v = 0 then 0 else 2 ^ Nat.log2 v :=
+  biggestPowerOfTwo_eq w v hv
 
 /-- the specification value is what it should be: a power of two with `p ≤ v < 2p` -/
 theorem biggestPowerOfTwo_bounds (v : Nat) (hv : v ≠ 0) : 2 ^ Nat.log2 v ≤ v ∧ v < 2 * 2 ^ Nat.log2 v := by
@@ -286,11 +287,11 @@ theorem biggestPowerOfTwo_bounds (v : Nat) (hv : v ≠ 0) : 2 ^ Nat.log2 v ≤ v
   have h2 := @Nat.lt_log2_self v
   rw [Nat.pow_succ] at h2; omega
 
-/-- widths ≥ 32 are rejected by the generator (`1 << 31` is a negative `int`): the property does not hold there. -/
-theorem biggestPowerOfTwo_wide (w v : Nat) (hw : 32 ≤ w) : biggestPowerOfTwo w v = none := by
-  unfold biggestPowerOfTwo; rw [if_pos hw]
+example : biggestPowerOfTwo 10 777 = 512 ∧ biggestPowerOfTwo 40 (2 ^ 39 + 5) = 2 ^ 39 := by decide
 
-example : biggestPowerOfTwo 10 777 = some 512 := by decide
+/-- historical witness (code before 7605865): the generator rejected every width ≥ 32 (`1 << 31` is a negative `int`) -/
+theorem historic_biggestPowerOfTwo_wide (w v : Nat) (hw : 32 ≤ w) : Historic.biggestPowerOfTwo w v = none := by
+  unfold Historic.biggestPowerOfTwo; rw [if_pos hw]
 
 /-! ## long division -/
 
@@ -364,26 +365,23 @@ theorem counter_flags (c : CounterCfg) (v : Nat) (i : CounterIn) :
     (counterStep c v i).becomesFirst = ((counterStep c v i).next == 0) := by
   unfold counterStep; exact ⟨rfl, rfl, rfl⟩
 
-/- Full statement for `counterUpDown` (fails, see the two witnesses):
-   `∀ w v inc dec reset, v < 2^w → next = clampStep (2^w-1) v inc dec reset rv`.
-   Proved: it holds unless increment and decrement are requested together while the counter sits at a limit. -/
-theorem counterUpDown_partial (w rv v : Nat) (inc dec reset : Bool) (hw : 0 < w) (hv : v < 2 ^ w)
-    (hq : ¬ (inc = true ∧ dec = true ∧ reset = false ∧ (v = 0 ∨ v = 2 ^ w - 1))) :
+/-- `counterUpDown`, one cycle, every width: the net change `inc - dec` is applied and clamped to `[0, 2^w - 1]`; `reset` loads the
+reset value. -/
+theorem counterUpDown_step (w rv v : Nat) (inc dec reset : Bool) (hw : 0 < w) (hv : v < 2 ^ w) :
     (counterUpDownStep w rv v inc dec reset).next = clampStep (2 ^ w - 1) v inc dec reset (rv % 2 ^ w) :=
-  counterUpDownStep_clamp w rv v inc dec reset hw hv hq
+  counterUpDownStep_clamp w rv v inc dec reset hw hv
 
-/-- witness (every width): at the maximum, `inc ∧ dec` decrements (net change 0 expected) -/
-theorem counterUpDown_witness_max (w rv : Nat) (hw : 0 < w) :
-    (counterUpDownStep w rv (2 ^ w - 1) true true false).next = 2 ^ w - 2 ∧
-    clampStep (2 ^ w - 1) (2 ^ w - 1) true true false rv = 2 ^ w - 1 := by
-  refine ⟨counterUpDownStep_both_at_max w rv hw, ?_⟩
-  rw [clampStep_nat _ _ _ _ _ (Nat.le_refl _)]; simp
+/-- `counterUpDown`, every history of (increment, decrement, reset) cycles: the register holds the clamped running count. -/
+theorem counterUpDown_history (w rv : Nat) (hw : 0 < w) (ops : List (Bool × Bool × Bool)) (v : Nat) (hv : v < 2 ^ w) :
+    counterUpDownRun w rv v ops = clampRun (2 ^ w - 1) (rv % 2 ^ w) v ops :=
+  counterUpDownRun_eq w rv hw ops v hv
 
-/-- witness (every width): at zero, `inc ∧ dec` increments -/
-theorem counterUpDown_witness_zero (w rv : Nat) (hw : 0 < w) :
-    (counterUpDownStep w rv 0 true true false).next = 1 ∧ clampStep (2 ^ w - 1) 0 true true false rv = 0 := by
-  refine ⟨counterUpDownStep_both_at_zero w rv hw, ?_⟩
-  rw [clampStep_nat _ _ _ _ _ (Nat.zero_le _)]; simp
+example : counterUpDownRun 3 5 6 [(true, false, false), (true, false, false), (true, true, false), (false, true, false)] = 6 := by decide
+
+/-- historical witness (code before 5569e92, increment and decrement gated independently): 3 bits, `inc ∧ dec` at 7 gave 6, at 0 gave 1 -/
+theorem historic_counterUpDown_witness :
+    (Historic.counterUpDownStep 3 0 7 true true false).next = 6 ∧ (Historic.counterUpDownStep 3 0 0 true true false).next = 1 ∧
+    clampStep 7 7 true true false 0 = 7 ∧ clampStep 7 0 true true false 0 = 0 := by decide
 
 example : counterRun ⟨3, true, false⟩ 4 2 [⟨true, false, false, 0⟩, ⟨true, false, false, 0⟩, ⟨true, false, false, 0⟩,
     ⟨false, true, false, 0⟩, ⟨false, true, false, 0⟩] = 3 := by decide
